@@ -75,8 +75,8 @@ theorem step_record (s : SeqState) (op : Op) (hok : (stepRaw s op).err = none) (
     exact ⟨_, h.1, h.2.1, h.2.2, rfl⟩
   | delay d n atRest =>
     right
-    have hok' : (store (.delay d n atRest) (delayCore s d n atRest)).err = none := hok
-    have h := store_record (.delay d n atRest) (kc_delayCore s d n atRest) hok'
+    have hok' : (store (.delay d n atRest) (delayChecked s d n atRest)).err = none := hok
+    have h := store_record (.delay d n atRest) (kc_delayChecked s d n atRest) hok'
     exact ⟨_, h.1, h.2.1, h.2.2, rfl⟩
   | phaseShift phi qs b =>
     right
